@@ -68,8 +68,20 @@ func runC04(c *Ctx) {
 			continue
 		}
 		if len(core.CallsTo(fn, kByCID)) == 0 || len(core.CallsTo(fn, kByIP)) == 0 {
-			r.Fail("C04-D1", "precedence:"+fk, p.FnPos(fn), "the lookup no longer consults both the ClientID and the address index")
-			continue
+			// the cascade may live in a helper of the package that fn calls (lookup extracted into its own function)
+			var helper *ssa.Function
+			for h := range core.StaticReach(fn, 2) {
+				if h != fn && core.PkgOf(h) == "client" && len(core.CallsTo(h, kByCID)) > 0 && len(core.CallsTo(h, kByIP)) > 0 {
+					if helper == nil || core.FuncKey(h) < core.FuncKey(helper) {
+						helper = h
+					}
+				}
+			}
+			if helper == nil {
+				r.Fail("C04-D1", "precedence:"+fk, p.FnPos(fn), "the lookup no longer consults both the ClientID and the address index")
+				continue
+			}
+			fn = helper
 		}
 		g, n := notFound(fn, kByCID)
 		off, _ := core.UnguardedSinks(fn, core.IsCallTo(false, kByIP), g)
